@@ -571,6 +571,141 @@ fn trace(out: &str, seed: u64, events: usize, nslots: usize, nalloc: usize, nthr
     println!("{}", json!({"summary":"trace","events":emitted}));
 }
 
+/// Free-running concurrent mode (C10: "the same operations issued concurrently from several threads").
+/// Every thread owns `per` slots and performs random operations on its own slots only, all threads at
+/// once and without any scheduling by the driver: the reference counts of the shared allocations are the
+/// contended state.  A completed operation is stamped with a global sequence number; operations of
+/// different threads touch disjoint slots, so any merge that respects each thread's own order is a
+/// linearisation the specification must accept, and the counts are compared at the `sync` event after
+/// all threads have joined.
+fn conc(out: &str, seed: u64, rounds: usize, nthreads: usize, per: usize, nalloc: usize, ops: usize) {
+    let mut log = vkit::NdJson::create(out);
+    let mut rng = vkit::rng::Rng::new(seed);
+    let nslots = nthreads * per;
+    let mut emitted = 0;
+    for _round in 0..rounds {
+        let base = ledger::snap();
+        BAD.store(0, SeqCst);
+        let mut w = World::new(nslots, nalloc, nthreads);
+        log.emit(&json!({"op":"reset"}));
+        emitted += 1;
+        let mut setup: Vec<Value> = (1..=nalloc).map(|a| json!({"op":"EnvNewArc","a":a})).collect();
+        for t in 1..=nthreads {
+            let a = 1 + (t + rng.below(nalloc)) % nalloc;
+            setup.push(json!({"op":"FromArc","t":t,"s":(t - 1) * per + 1,"a":a,"k": if rng.chance(1,2) {"CArc"} else {"Some"}}));
+        }
+        for e in setup {
+            let r = w.apply(&e);
+            let mut ev = e.clone();
+            let o = ev.as_object_mut().unwrap();
+            o.insert("proj".into(), w.proj());
+            o.insert("ok".into(), json!(r.is_ok() && BAD.load(SeqCst) == 0));
+            log.emit(&ev);
+            emitted += 1;
+        }
+        let gseq = Arc::new(AtomicUsize::new(0));
+        let barrier = Arc::new(std::sync::Barrier::new(nthreads));
+        let mut joins = vec![];
+        for t in 1..=nthreads {
+            let sh = w.sh.clone();
+            let gseq = gseq.clone();
+            let barrier = barrier.clone();
+            let tseed = seed.wrapping_mul(1000003).wrapping_add((_round * 97 + t) as u64);
+            joins.push(std::thread::spawn(move || {
+                let mut rng = vkit::rng::Rng::new(tseed);
+                let mine: Vec<usize> = ((t - 1) * per..t * per).collect();
+                let mut evs: Vec<(usize, Value)> = vec![];
+                barrier.wait();
+                for _ in 0..ops {
+                    let views: Vec<Option<(&'static str, usize)>> = {
+                        let sl = sh.slots.lock().unwrap();
+                        mine.iter().map(|&i| sl[i].as_ref().map(|h| h.view())).collect()
+                    };
+                    let free: Vec<usize> = (0..per).filter(|&i| views[i].is_none()).collect();
+                    let used: Vec<usize> = (0..per).filter(|&i| views[i].is_some()).collect();
+                    let mut c: Vec<Value> = vec![];
+                    if let Some(&d) = free.first() {
+                        let a = 1 + rng.below(nalloc);
+                        c.push(json!({"op":"FromArc","t":t,"s":mine[d]+1,"a":a,"k": if rng.chance(1,2) {"CArc"} else {"Some"}}));
+                        if rng.chance(1, 5) {
+                            c.push(json!({"op":"MakeEmpty","t":t,"s":mine[d]+1}));
+                        }
+                    }
+                    for &u in &used {
+                        let (k, a) = views[u].unwrap();
+                        let s = mine[u] + 1;
+                        c.push(json!({"op":"Drop","t":t,"s":s}));
+                        if let Some(&d) = free.first() {
+                            if matches!(k, "CArc" | "Some" | "OCArc" | "OSome") {
+                                c.push(json!({"op":"Clone","t":t,"s":s,"d":mine[d]+1}));
+                                c.push(json!({"op":"Clone","t":t,"s":s,"d":mine[d]+1}));
+                            }
+                            if matches!(k, "CArc" | "OCArc") {
+                                c.push(json!({"op":"Take","t":t,"s":s,"d":mine[d]+1}));
+                            }
+                        }
+                        match k {
+                            "CArc" => {
+                                c.push(json!({"op":"Convert","t":t,"s":s,"to":"Opt"}));
+                                c.push(json!({"op":"Convert","t":t,"s":s,"to":"OCArc"}));
+                            }
+                            "Some" => {
+                                c.push(json!({"op":"Convert","t":t,"s":s,"to":"CArc"}));
+                                c.push(json!({"op":"Convert","t":t,"s":s,"to":"OSome"}));
+                                c.push(json!({"op":"IntoArc","t":t,"s":s}));
+                            }
+                            "Opt" => {
+                                c.push(json!({"op":"Convert","t":t,"s":s,"to":"CArc"}));
+                                if a != 0 {
+                                    c.push(json!({"op":"Unwrap","t":t,"s":s}));
+                                }
+                            }
+                            _ => {}
+                        }
+                    }
+                    if c.is_empty() {
+                        continue;
+                    }
+                    let e = rng.pick(&c).clone();
+                    let r = vkit::catch(|| exec(&sh, &e)).unwrap_or_else(|m| Err(format!("panic: {}", m)));
+                    let lv: Vec<Value> = {
+                        let sl = sh.slots.lock().unwrap();
+                        mine.iter().map(|&i| match sl[i].as_ref().map(|h| h.view()) {
+                            None => json!([i + 1, "free", 0]),
+                            Some((k, a)) => json!([i + 1, k, a]),
+                        }).collect()
+                    };
+                    let seq = gseq.fetch_add(1, SeqCst);
+                    let mut ev = e.clone();
+                    let o = ev.as_object_mut().unwrap();
+                    o.insert("conc".into(), json!(true));
+                    o.insert("seq".into(), json!(seq));
+                    o.insert("lv".into(), json!(lv));
+                    o.insert("ok".into(), json!(r.is_ok()));
+                    evs.push((seq, ev));
+                }
+                evs
+            }));
+        }
+        let mut all: Vec<(usize, Value)> = vec![];
+        for j in joins {
+            all.extend(j.join().expect("worker thread"));
+        }
+        all.sort_by_key(|x| x.0);
+        for (_, ev) in all {
+            log.emit(&ev);
+            emitted += 1;
+        }
+        log.emit(&json!({"op":"sync","proj": w.proj(), "ok": BAD.load(SeqCst) == 0}));
+        emitted += 1;
+        let td = w.teardown(base);
+        log.emit(&json!({"op":"quiescent","ok": td.is_none(), "msg": td.unwrap_or_default()}));
+        emitted += 1;
+    }
+    log.flush();
+    println!("{}", json!({"summary":"conc","events":emitted}));
+}
+
 pub fn main(args: &[String]) {
     let mode = args[0].as_str();
     let path = args.get(1).cloned().unwrap_or_default();
@@ -589,6 +724,9 @@ pub fn main(args: &[String]) {
                 }
             }
             vkit::summary("arc-replay", lines.len(), steps, &failures, json!({}));
+        }
+        "conc" => {
+            conc(&path, geti("--seed", 1) as u64, geti("--rounds", 20), geti("--threads", 3), geti("--per", 2), nalloc, geti("--ops", 200));
         }
         "trace" => {
             trace(&path, geti("--seed", 1) as u64, geti("--events", 1000), nslots, nalloc, nthreads);
